@@ -5,27 +5,38 @@ from harness.common.rng import Rng
 from harness.common import sim
 
 PROP = "C13"
-LEAN_MODULES = ["LunaVerif.Props.C13"]
+LEAN_MODULES = ["LunaVerif.Props.C13", "LunaVerif.Lemmas.C13Host", "LunaVerif.Lemmas.C13Write", "LunaVerif.Lemmas.C13Fin",
+                "LunaVerif.Props.C13Stream", "LunaVerif.Props.C13Handshake"]
 DRIVER = "Driver/C13.lean"
 REQUIRED_THEOREMS = ["ack_implies_delivered_or_repeat_partial", "nak_iff_cannot_take_partial", "fifo_inputs_legal",
                      "overflow_sticky", "overflowed_packet_discarded", "overflowed_packet_naked",
                      "transfer_active_only_on_accept", "first_after_zlp_marked",
-                     "first_after_discarded_packet_marked", "overflowed_packet_naked_then_retried"]
+                     "first_after_discarded_packet_marked", "overflowed_packet_naked_then_retried",
+                     # history level (Props/C13Stream.lean and its layers)
+                     "detRel_step", "winv_step", "sim_step", "out_stream_exact", "out_stream_prefix",
+                     "out_stream_complete_when_drained", "last_iff_short_packet_end", "first_iff_transfer_start",
+                     "nak_iff_cannot_take", "ack_implies_delivered_or_repeat", "out_toggle_tracks_observer"]
 RULE = ("cases = (max_packet_size, buffer_size) x consumer pattern x response delay x seed; a scripted host issues OUT "
         "transactions (sizes 0..max, biased to max-size packets followed by a ZLP), retries NAKed packets, repeats "
         "ACKed packets with the old toggle (lost handshake), sends CRC-corrupted packets, PINGs, traffic to other "
         "endpoints and ClearFeature(HALT); the response request comes 1, 2, 3 or 10 cycles after rx_complete "
         "(HS / FS@12MHz / - / FS@60MHz interpacket delays); consumer: ready, stalled (buffer nearly full), random")
-ASSUMPTIONS = ["interface.rx has the shape USBDataPacketReceiver produces (exactly one of rx_complete/rx_invalid in the "
+ASSUMPTIONS = ["LegalHost (lean/LunaVerif/Lemmas/C13Host.lean, decidable acceptor Phase.step; the generated stimulus is "
+               "checked against it cycle by cycle through the model driver's 7th output): in words the four items below, "
+               "plus: no ClearFeature(HALT) for the endpoint inside its own OUT transaction; OUT and PING never decoded "
+               "together; max_packet_size >= 1",
+               "interface.rx has the shape USBDataPacketReceiver produces (exactly one of rx_complete/rx_invalid in the "
                "cycle valid falls; >= 4 cycles between packets; sizes <= max_packet_size)",
                "rx_ready_for_response follows rx_complete by >= 1 cycle (USBInterpacketTimer: 1 / 2 / 10 cycles)",
                "tokenizer fields and rx_pid_toggle are stable from the data packet until the response request",
                "every transaction starts with a token addressed to the device (tokenizer.new_token strobe) before its data"]
-PARTIAL = ("cycle-level model of the repaired endpoint co-simulated; theorems are proved on the endpoint's decision "
-           "logic (ack/nak/commit/discard equations, overflow, toggle and transfer_active registers) for all states and "
-           "inputs, with C18's queue refinement applicable by fifo_inputs_legal; out_stream_exact, "
-           "last_iff_short_packet_end and first_iff_transfer_start over whole histories are checked by the monitor on "
-           "the real gateware and on three kernel-evaluated model runs (the former counterexamples), not proved")
+PARTIAL = ("the history-level theorems (out_stream_exact, nak_iff_cannot_take, ack_implies_delivered_or_repeat, "
+           "last_iff_short_packet_end, first_iff_transfer_start) are proved for every LegalHost history of the cycle-level "
+           "model of the repaired endpoint; 'cannot take a whole packet' is proved in the form 'a byte of the packet was "
+           "presented while the FIFO was full' -- the arithmetic corollary (space_available >= packet length at the token "
+           "=> the packet is ACKed; in particular the promise of a PING ACK) is not proved; out_stream_exact speaks about "
+           "histories of complete transactions and states the not yet consumed part through C18's queue relation "
+           "(equality of the consumer's stream itself once stream.valid is low)")
 KNOWN_SIGS = {}
 
 EP = 2
@@ -374,7 +385,12 @@ def run_case(desc):
     fails, tags = monitor(mps, buf, stim, rows)
     tags = sorted(tags) + ["mps=%d buffer=%d" % (mps, buf), "pattern=" + desc.get("pattern", "replay"),
                            "delay=%s" % desc.get("delay")]
+    # 7th compared column: the Lean acceptor of `LegalHost` (hypothesis of the history-level theorems) accepts the
+    # history up to this cycle -- the generated stimulus is inside the theorems' quantifier (not compared for
+    # replays of foreign stimuli)
+    legal = None if desc.get("stimulus") is not None else 1
+    rows = [list(r) + [legal] for r in rows]
     return Case([EP, mps, buf], stim, rows, fails, tags, desc,
                 ["rx_valid", "rx_next", "rx_payload", "rx_complete", "rx_invalid", "rx_ready_for_response", "rx_pid_toggle",
                  "tok_endpoint", "tok_is_out", "tok_is_ping", "tok_ready_for_response", "clear_halt", "ready", "tok_new_token"],
-                ["ack", "nak", "valid", "payload", "first", "last"])
+                ["ack", "nak", "valid", "payload", "first", "last", "legal_host_prefix"])
